@@ -204,6 +204,10 @@ func (b *btcdBackend) send(kind byte, v int32) {
 	t := time.Unix(1600000000+int64(v), 0)
 	if kind == 'c' {
 		b.c.VerifC18OnBlockConnected(sqHash(v), v, t)
+	} else if kind == 'g' {
+		// a *RescanProgress: for the queue an item like any other (it does
+		// not move the best block, like a BlockDisconnected; logged as 's')
+		b.c.VerifC18OnRescanProgress(sqHash(v), v, t)
 	} else {
 		b.c.VerifC18OnBlockDisconnected(sqHash(v), v, t)
 	}
@@ -291,6 +295,11 @@ func sqDecode(x interface{}, want *chainhash.Hash) (byte, int) {
 		}
 		return 'R', int(n.Height)
 	case chain.BlockDisconnected:
+		if n.Hash != *sqHash(n.Height) {
+			return 'u', -2
+		}
+		return 'r', int(n.Height)
+	case *chain.RescanProgress:
 		if n.Hash != *sqHash(n.Height) {
 			return 'u', -2
 		}
@@ -418,7 +427,7 @@ func sqScript(in c18Input, r *sqRun) {
 	}
 	for _, op := range plan {
 		switch op {
-		case 's', 'c':
+		case 's', 'c', 'g':
 			next++
 			t0 := time.Now()
 			if !within(sqLongWait, func() { r.be.send(byte(op), next) }) {
@@ -428,6 +437,9 @@ func sqScript(in c18Input, r *sqRun) {
 			}
 			if d := time.Since(t0).Microseconds(); d > obs.MaxSendUs {
 				obs.MaxSendUs = d
+			}
+			if op == 'g' {
+				op = 's' // the model knows two kinds of items: moving the best block or not
 			}
 			lg.add(byte(op), int(next))
 			r.noteSent()
@@ -737,6 +749,8 @@ func sqGenPlan(r *gen.R) string {
 	send := func() {
 		if r.Chance(1, 2) {
 			b.WriteByte('c')
+		} else if r.Chance(1, 3) {
+			b.WriteByte('g') // a rescan-progress item (btcd; the neutrino callbacks take it as 's')
 		} else {
 			b.WriteByte('s')
 		}
@@ -790,16 +804,17 @@ func sqGenPlan(r *gen.R) string {
 func sqSystematic() []c18Input {
 	rep := func(ch string, n int) string { return strings.Repeat(ch, n) }
 	plans := []string{
-		"x",                  // stop at once
-		"bx",                 // best block before anything was delivered
+		"x",                    // stop at once
+		"bx",                   // best block before anything was delivered
 		"srx", "crbx", "ssrrx", // the smallest queues: empty -> 1 -> empty, 2 -> empty
-		"scbrbrbx",                              // bookkeeping follows DELIVERY, not enqueueing
-		rep("sc", 3) + rep("r", 6) + "x",        // burst with no consumer, then drain
+		"scbrbrbx",                                // bookkeeping follows DELIVERY, not enqueueing
+		rep("sc", 3) + rep("r", 6) + "x",          // burst with no consumer, then drain
 		rep("cs", 30) + "p" + rep("rb", 60) + "x", // long burst
-		rep("c", 4) + "px", rep("s", 4) + "x", // stop with a backlog
+		rep("c", 4) + "px", rep("s", 4) + "x",     // stop with a backlog
 		rep("sr", 8) + "x", rep("cbrb", 6) + "x", // fast consumer: the queue empties after every item
-		"ssr" + "csr" + "ssr" + "rrr" + "x",    // slow consumer falling behind
+		"ssr" + "csr" + "ssr" + "rrr" + "x",             // slow consumer falling behind
 		"sr" + "p" + "ccr" + "r" + "p" + "sssrrr" + "x", // empties and refills repeatedly
+		"cgggrrrrx", "gcggcgg" + rep("r", 7) + "x", // back-to-back rescan-progress items behind a backlog
 	}
 	var ins []c18Input
 	for _, q := range []string{"btcd", "neutrino"} {
